@@ -181,8 +181,8 @@ impl Multi {
             if empty { self.model.dbs[b.db].map.remove(&key); }
             self.touch(b.db, &[key.clone()]);
         }
-        // FIFO: nobody who blocked on this key earlier (and is still waiting, alive) may be passed over
-        let earlier: Vec<usize> = self.cl.iter().filter(|(d, cl)| **d != c && !cl.gone && cl.blocked.as_ref().map_or(false, |x| x.db == b.db && x.keys.contains(&key) && x.order < b.order)).map(|(d, _)| *d).collect();
+        // FIFO: nobody who blocked on this key earlier (and is still waiting, alive, with its timeout not yet reached) may be passed over
+        let earlier: Vec<usize> = self.cl.iter().filter(|(d, cl)| **d != c && !cl.gone && cl.blocked.as_ref().map_or(false, |x| x.db == b.db && x.keys.contains(&key) && x.order < b.order && x.deadline.map_or(true, |dl| dl > now))).map(|(d, _)| *d).collect();
         if !earlier.is_empty() && ok_key {
             self.h.violate(format!("{}/blocking/fifo", self.prop), format!("client {} (blocked as #{}) was served {} from {} while client(s) {:?} blocked on that key earlier and are still waiting", c, b.order, resp::escape(&elem), resp::escape(&key), earlier));
         }
